@@ -58,6 +58,8 @@ def corpus():
             for f in ("none", "post"):
                 out.append(mk_case(U.mk_data(cls, 7, names, "/", [["C", 0, [1, 2, 3, 4, 5], "none"], ["C", 6, take, f], ["P", take[0], 0, "none"]]),
                                    ("corpus", "donor>=4")))
+    # one-off probe (the history itself is trivial): loops closed through chains of 1200 / 2500 levels
+    out.append(mk_case(dict(U.mk_data("base", 2, [], "/", [["P", 1, 0, "none"]]), probe="deep"), ("corpus", "probe-deep")))
     # children already under the target, donor that is itself being stolen
     out.append(mk_case(U.mk_data("base", 5, [], "/", [["C", 0, [1, 2, 3], "none"], ["C", 1, [4], "none"], ["C", 0, [3, 4, 1], "post"], ["C", 0, [3, 4, 1], "none"]]), ("corpus",)))
     out.append(mk_case(U.mk_data("base", 5, [], "/", [["C", 0, [1, 2], "none"], ["C", 1, [3, 4], "none"], ["C", 2, [1, 4], "post"], ["C", 2, [4, 1], "none"]]), ("corpus",)))
@@ -104,8 +106,49 @@ def impl(case):
     return B.impl_line(case.data, B.wants_readback(case.line))
 
 
+def _deep_probe():
+    """chains far deeper than anything the small-scope part reaches (1200 and 2500 levels, beyond the interpreter's
+    default recursion limit): closing the chain into a loop - through the parent setter, the children setter, >> and
+    append - must be refused, a legal re-parenting of the bottom node must be accepted, and walking parents from the
+    bottom must still reach the top"""
+    import bigtree
+    msgs = []
+    for cls in (bigtree.BaseNode, bigtree.Node):
+        for depth in (1200, 2500):
+            nodes = [cls(name="n%d" % i) if cls is bigtree.Node else cls() for i in range(depth)]
+            for i in range(1, depth):
+                nodes[i].parent = nodes[i - 1]
+            top, bottom = nodes[0], nodes[-1]
+            attempts = {"top.parent = bottom": lambda: setattr(top, "parent", bottom),
+                        "bottom.children = [top]": lambda: setattr(bottom, "children", [top]),
+                        "bottom >> top": lambda: bottom >> top,
+                        "bottom.append(top)": lambda: bottom.append(top),
+                        "mid.parent = bottom": lambda: setattr(nodes[depth // 2], "parent", bottom)}
+            for what, f in attempts.items():
+                try:
+                    f()
+                    msgs.append(f"{cls.__name__} chain of {depth}: `{what}` (an ancestor loop) was accepted")
+                except Exception:  # noqa: BLE001
+                    pass
+                x, steps = bottom, 0
+                while x.parent is not None and steps <= depth:
+                    x, steps = x.parent, steps + 1
+                if x is not top or steps != depth - 1:
+                    msgs.append(f"{cls.__name__} chain of {depth}: after `{what}` walking parents from the bottom does not end at the top")
+                    break
+            if msgs:
+                return msgs
+            try:
+                bottom.parent = nodes[depth - 3]
+            except Exception as e:  # noqa: BLE001
+                msgs.append(f"{cls.__name__} chain of {depth}: a legal re-parenting of the bottom node raised {type(e).__name__}")
+    return msgs
+
+
 def oracle(case):
     d = case.data
+    if d.get("probe") == "deep":
+        return _deep_probe()
     nodes = U.make_nodes(d)
     msgs = []
     before = U.snap(nodes)
